@@ -96,7 +96,7 @@ mod proofs {
         assert!(r == x % q);
         assert!(m.reduce(x) == r);
     }
-    // @harness id=C08 tier=quick timeout=900
+    // @harness id=C08 tier=deep timeout=900
     // @desc barrett_reduce_u64(x) == x % q and Modulus::reduce agrees
     // @bounds 8 representative moduli of the generated family (2, 3, 13, 2^31-1, 2^32+15, 2^59, 2^61-1, 61-bit prime; literals of the real Modulus::new, so const_ratio is the constructor's); x with symbolic top 16 and bottom 16 bits (values up to 2^64-1); full-width x at every family modulus: thorough tier harness c08_barrett64_family_all
     // @funcs barrett_reduce_u64, multiply_u64_high_word, Modulus::reduce, Modulus::set_value (through its literal output)
@@ -113,7 +113,7 @@ mod proofs {
         assert!(m.reduce_u128(p) == e);
         assert!(multiply_add_u64_mod(a, b, c, m) == ((p + c as u128) % q as u128) as u64);
     }
-    // @harness id=C08 tier=quick timeout=900
+    // @harness id=C08 tier=deep timeout=900
     // @desc barrett_reduce_u128 / multiply_u64_mod / multiply_add_u64_mod / Modulus::reduce_u128 return the exact residue of the 128-bit value
     // @bounds 8 representative moduli of the generated family (quick; all 27 in the thorough _all variant); factors and addend below 2^61 with bits 55..60 and 0..5 symbolic (products reach 2^122: both words of the 128-bit input are exercised); full-width factors are out of CBMC's reach (engine M covers them at concrete moduli)
     // @funcs barrett_reduce_u128, multiply_u64_mod, multiply_add_u64_mod, Modulus::reduce_u128
@@ -139,7 +139,7 @@ mod proofs {
         let ec = (e as u128 + (c % q) as u128) % q as u128;
         assert!(multiply_u64operand_add_u64_mod(x, &op, c, m) as u128 == ec);
     }
-    // @harness id=C08 tier=quick timeout=900
+    // @harness id=C08 tier=deep timeout=900
     // @desc MultiplyU64ModOperand::new: quotient = floor(operand*2^64/q); multiply_u64operand_mod exact; lazy form congruent and < 2q; multiply_u64operand_add_u64_mod adds the reduced addend
     // @bounds 8 representative moduli of the generated family (quick; all 27 in the thorough _all variant); operand y in {q-1, q/2, 1, 0, sparse value < q}; x any 64-bit value with symbolic top byte and bottom byte (so x up to 2^64-1 > q); addend any u64
     // @funcs MultiplyU64ModOperand::new, MultiplyU64ModOperand::set_quotient, divide_u128_u64_inplace, multiply_u64operand_mod, multiply_u64operand_mod_lazy, multiply_u64operand_add_u64_mod
@@ -161,7 +161,7 @@ mod proofs {
         kani::cover!(e == 7 && got > 1);
         assert!(got == if e == 0 { 1 } else { acc } || (q == 1));
     }
-    // @harness id=C08 tier=quick unwind=5 timeout=900
+    // @harness id=C08 tier=deep unwind=5 timeout=900
     // @desc exponentiate_u64_mod(b, e) = b^e mod q (reference: binary powering with % on u128)
     // @bounds 8 representative moduli of the generated family (quick; all 27 in the thorough _all variant) except 2 handled alike; base < q with bits 55..60 and 0..5 symbolic; exponent 0..7
     // @funcs exponentiate_u64_mod, multiply_u64_mod
@@ -181,7 +181,7 @@ mod proofs {
         kani::cover!(c > 1 && e > (1u128 << 123));
         assert!(got == (e % q as u128) as u64);
     }
-    // @harness id=C08 tier=quick unwind=5 timeout=900
+    // @harness id=C08 tier=deep unwind=5 timeout=900
     // @desc dot_product_mod of two length-k vectors (k = 1..3) = sum of products mod q
     // @bounds 8 representative moduli of the generated family (quick; all 27 in the thorough _all variant); entries below 2^61 with bits 55..60 and 0..5 symbolic
     // @funcs dot_product_mod, add_u128_inplace, multiply_u64_u64, barrett_reduce_u128
@@ -207,7 +207,7 @@ mod proofs {
         match c { 0 => modulo_uint_inplace(&mut wi[..1], m), 1 => modulo_uint_inplace(&mut wi[..2], m), _ => modulo_uint_inplace(&mut wi[..3], m) };
         assert!(wi[0] == e && (c == 0 || wi[1] == 0) && (c < 2 || wi[2] == 0));
     }
-    // @harness id=C08 tier=quick unwind=5 timeout=900
+    // @harness id=C08 tier=deep unwind=5 timeout=900
     // @desc modulo_uint / modulo_uint_inplace of a k-word value (k = 1..3) = value mod q, upper words cleared by the in-place form
     // @bounds 8 representative moduli of the generated family (quick; all 27 in the thorough _all variant); lowest word any u64, upper words below 2^61 (sparse: bits 55..60, 0..5) with the top word < q (documented precondition of the 128-bit Barrett step)
     // @funcs modulo_uint, modulo_uint_inplace, barrett_reduce_u128, barrett_reduce_u64
@@ -215,14 +215,14 @@ mod proofs {
     fn c08_modulo_uint_family() { with_modulus(pick(), body_modulo); }
 
 
-    // @harness id=C08 tier=thorough timeout=3000
+    // @harness id=C08 tier=deep timeout=3000
     // @desc as c08_add_sub_neg_family / c08_barrett64_family over ALL family moduli
     // @bounds all 27 family moduli; add/sub operands full width; barrett x sparse (top/bottom 16 bits)
     // @funcs add_u64_mod, sub_u64_mod, negate_u64_mod, increment_u64_mod, decrement_u64_mod, div2_u64_mod, barrett_reduce_u64
     #[kani::proof]
     fn c08_addsub_barrett64_family_all() { let c: bool = kani::any(); if c { with_modulus(pick_all(), body_addsub) } else { with_modulus(pick_all(), body_barrett64) } }
 
-    // @harness id=C08 tier=thorough timeout=3000
+    // @harness id=C08 tier=deep timeout=3000
     // @desc as c08_barrett128_family / c08_mulop_family over ALL family moduli
     // @bounds all 27 family moduli; sparse operands as in the quick harnesses
     // @funcs barrett_reduce_u128, multiply_u64_mod, multiply_add_u64_mod, MultiplyU64ModOperand::new, multiply_u64operand_mod, multiply_u64operand_mod_lazy
